@@ -115,7 +115,11 @@ PROPS = {
                            "integer-pivot separation is a known finding: seeded draws from random grid continua (2..5 annotators, ground-truth "
                            "subsets, both pivot types, non-zero lower bounds, integer timestamps) with the pivots recorded from the harness: "
                            "every sampled annotator is the wrapped translation of one ground-truth annotator by its pivot, pivots within bounds, "
-                           "whole numbers in int mode, pairwise >= avg unit length / 2 apart; reference unchanged")],
+                           "whole numbers in int mode, pairwise >= avg unit length / 2 apart; reference unchanged"),
+                 dict(oracle=SP + "ShuffleContinuumSampler._random_from_segments#assumed-contract",
+                      what="the two ASSUMED contracts clause by clause on the real code: _random_from_segments on random lists of positive-length "
+                           "segments (incl. very short ones and integer timestamps), both pivot types: returns, float pivot within a segment, "
+                           "int pivot a whole number; avg_length_unit > 0")],
         design_ref="DESIGN.md section 4 C16, appendix A.5",
         not_decided=["uniformity of the pivots (statistical)",
                      "'same number' of units: the proved clause is set-level (the sampled annotator's units are exactly the shifted images of the "
@@ -258,6 +262,10 @@ PROPS = {
                            "everything' (consequences of optimality, not stated as contracts), are exercised on the real code with a stall "
                            "detector and a 20 s alarm: grids of 2-4 annotators x up to 4 units incl. nested / long overlapping units and empty "
                            "annotators x window sizes 1..ceil(units/annotators)+1 x 6 dissimilarities, brute-force optimum up to 8 units"),
+                 dict(oracle=CT + "Continuum.get_first_window#assumed-contract",
+                      what="the ASSUMED contract of get_first_window, clause by clause on the real code (fresh, same annotators in the same order, "
+                           "sub-continuum, no more units per annotator, representation invariant, non-empty, source unchanged), same grids x "
+                           "every window size"),
                  dict(oracle=CT + "Continuum.measure_best_window_size",
                       what="the estimate itself (numpy closures) is outside the encoding: measure_best_window_size on random continua with a "
                            "stale finite best_window_size stored beforehand gives the verdict of a fresh measurement; the fast job calls "
